@@ -825,8 +825,8 @@ VARIANTS = [
     Variant("skip-test-reads-first-directive-only", "FIRE", "core", 'def has_ignore_comment(source: str, rng: Range) -> bool:\n    pattern = re.compile(r"#\\s*pyrefact\\s*:\\s*(skip_file|ignore)")\n', '_DIRECTIVE = re.compile(r"#\\s*pyrefact\\s*:\\s*(skip_file|ignore)")\n\n\ndef get_directive(text: str):\n    found = _DIRECTIVE.search(text)\n    if found is None:\n        return None\n\n    return found.group(1)\n\n\ndef has_ignore_comment(source: str, rng: Range) -> bool:\n', "R20.2", extra=[("core", '        if rng & Range(line_start, line_end) and pattern.search(line):', '        if rng & Range(line_start, line_end) and get_directive(line) is not None:'),
             ("main", "    if re.search(r\"#\\s*pyrefact\\s*:\\s*skip_file\", source):", "    if core.get_directive(source) == \"skip_file\":")]),
     Variant("expandtabs-before-skip-test", "FIRE", "main",
-            "    if re.search(r\"#\\s*pyrefact\\s*:\\s*skip_file\", source):\n        return source\n\n    unformatted_source = source\n    source = source.expandtabs(4)\n",
-            "    unformatted_source = source\n    source = source.expandtabs(4)\n    if re.search(r\"#\\s*pyrefact\\s*:\\s*skip_file\", source):\n        return source\n\n", "R20.1"),
+            "    if re.search(r\"#\\s*pyrefact\\s*:\\s*skip_file\", source):\n        return source\n\n    unformatted_source = source\n    source = _apply_layout_stage(functools.partial(str.expandtabs, tabsize=4), source)\n",
+            "    unformatted_source = source\n    source = _apply_layout_stage(functools.partial(str.expandtabs, tabsize=4), source)\n    if re.search(r\"#\\s*pyrefact\\s*:\\s*skip_file\", source):\n        return source\n\n", "R20.1"),
     Variant("skip-returns-stripped", "FIRE", "main",
             "    if re.search(r\"#\\s*pyrefact\\s*:\\s*skip_file\", source):\n        return source\n", "    if re.search(r\"#\\s*pyrefact\\s*:\\s*skip_file\", source):\n        return source.strip()\n", "R20.1"),
     Variant("skip-test-removed", "FIRE", "main",
